@@ -46,10 +46,27 @@ Usable(o) == o.raised = "" /\ WFClause(o.h) = "ok"
 \* "" (clause holds) or the suffix of the verdict class.
 
 \* ---- C08.IsRestriction: the result is the induced subtree, ordered, with labels, taxa, lengths and rooting flag
-IsKind(e, h, hn, R, Rs) ==
+\* update_bipartitions=True on a tree that is not rooted: encode_bipartitions() is documented to collapse
+\* the basal bifurcation of an unrooted tree ((A,(B,C)) becomes (A,B,C)).  Such a result is compared
+\* modulo exactly that: BasalOk(hn, rn) says hn is rn with one child c of a two-child seed dissolved
+\* into the seed (c has >= 2 children).  Left free: the order of the seed's children afterwards, which
+\* of two eligible children is dissolved, the flag becoming "unrooted", and the sibling's length where
+\* one of the two merged lengths is None (both numbers: their sum).  Everything below the seed's
+\* children - in particular unifurcations whose suppression was declined - must be as in rn.
+BasalOk(hn, rn) ==
+    /\ Len(rn.kids) = 2 /\ hn.lab = rn.lab /\ hn.tx = rn.tx /\ hn.len = rn.len
+    /\ \E i \in 1..2 :
+         LET c == rn.kids[i]  sb == rn.kids[3 - i]
+             lens == IF sb.len >= 0 /\ c.len >= 0 THEN {sb.len + c.len} ELSE {sb.len, AddLen(sb.len, c.len)}
+         IN /\ Len(c.kids) >= 2 /\ Len(hn.kids) = Len(c.kids) + 1
+            /\ \E v \in lens : SeqToSet(hn.kids) = SeqToSet(c.kids) \cup {[sb EXCEPT !.len = v]}
+SameMod(free, hn, rn) == hn = rn \/ (free /\ BasalOk(hn, rn))
+FlagOk(free, a, b) == a = b \/ (free /\ a = 0)
+
+IsKind(e, h, hn, R, Rs, free) ==
     LET sfx == IF e.sup THEN ":suppress" ELSE ":nosuppress"  rn == Nest(R, R.seed) IN
-    IF hn = rn THEN (IF h.rooted = e.g.rooted THEN "" ELSE ":rooting_flag")
-    ELSE IF ~e.sup /\ hn = Nest(Rs, Rs.seed) THEN ":suppression_not_declined"
+    IF SameMod(free, hn, rn) THEN (IF FlagOk(free, h.rooted, e.g.rooted) THEN "" ELSE ":rooting_flag")
+    ELSE IF ~e.sup /\ SameMod(free, hn, Nest(Rs, Rs.seed)) THEN ":suppression_not_declined"
     ELSE IF StripLen(hn) = StripLen(rn) THEN sfx \o ":lengths"
     ELSE IF StripLab(hn) = StripLab(rn) THEN sfx \o ":labels"
     ELSE sfx \o ":topology"
@@ -60,12 +77,12 @@ GSide(g, top) == LET LT == LeafTx(g, top)
                      lf == [t \in LT |-> TaxLeaf(g, t)] IN
                  [LT |-> LT, top |-> [t \in LT |-> DistBelow(g, top, lf[t])],
                   pair |-> [p \in {q \in LT \X LT : q[1] < q[2]} |-> PathLen(g, lf[p[1]], lf[p[2]])]]
-LenKind(h, gs) ==
-    IF ~TaxaOnLeavesOnce(h) THEN ""
+LenKind(h, gs, collapsed, lenfree) ==
+    IF ~TaxaOnLeavesOnce(h) \/ lenfree THEN ""
     ELSE LET common == AllTx(h) \cap gs.LT
              lf == [t \in common |-> TaxLeaf(h, t)]
          IN IF \E a, b \in common : a < b /\ PathLen(h, lf[a], lf[b]) # gs.pair[<<a, b>>] THEN ":between_leaves"
-            ELSE IF \E a \in common : DistBelow(h, h.seed, lf[a]) # gs.top[a] THEN ":from_top"
+            ELSE IF ~collapsed /\ \E a \in common : DistBelow(h, h.seed, lf[a]) # gs.top[a] THEN ":from_top"
             ELSE ""
 
 \* ---- C08.SingleLeaf: one survivor, suppression on: the result is that leaf with the accumulated length
@@ -77,9 +94,12 @@ SingleKind(e, h, K) ==
             /\ h.len[h.seed] = AccBelow(g, e.top, lf)
          THEN "" ELSE ":single"
 
-ResultKinds(e, h, K, R, Rs, gs) ==
-    LET hn == Nest(h, h.seed) IN
-    [nest |-> hn, is |-> IsKind(e, h, hn, R, Rs), len |-> LenKind(h, gs), single |-> SingleKind(e, h, K)]
+ResultKinds(e, h, K, R, Rs, gs, free) ==
+    LET hn == Nest(h, h.seed)  rn == Nest(R, R.seed)
+        collapsed == free /\ hn # rn
+        lenfree == collapsed /\ \E i \in 1..Len(rn.kids) : rn.kids[i].len < 0
+    IN [nest |-> hn, is |-> IsKind(e, h, hn, R, Rs, free), len |-> LenKind(h, gs, collapsed, lenfree),
+        single |-> SingleKind(e, h, K)]
 
 \* ---- C08.SourceUntouched: extraction leaves the source as it was; every new node points at its source node
 JSource(e, o, R, isk) ==
@@ -100,17 +120,21 @@ JRemoved(e, o, K) ==
     ELSE IF Len(o.removed) = Cardinality(SeqToSet(o.removed)) /\ SeqToSet(o.removed) = Desc(e.g, e.top) \ K THEN None
     ELSE V("C08.RemovedNodesExact", Name(o))
 
-JOut(e, o, k, rk, ref, rkinds, K, R, Rs, gs) ==
+Free(e, o) == o.ub /\ e.g.rooted # 1
+JOut(e, o, k, rk, ref, rkinds, fk, fkinds, K, R, Rs, gs) ==
     IF o.raised # ""
       THEN V("C08.IsRestriction", Name(o) \o ":raised:" \o o.raised \o
                                   (IF e.sup /\ R.seed # e.top /\ e.top # e.g.seed THEN ":start_node_suppressed" ELSE ""))
     ELSE IF WFClause(o.h) # "ok" THEN V("C08.IsRestriction", Name(o) \o ":illformed:" \o WFClause(o.h))
                                       \o JSource(e, o, R, "x") \o JRemoved(e, o, K)
-    ELSE LET kinds == IF rk # 0 /\ o.h = ref.h THEN rkinds ELSE ResultKinds(e, o.h, K, R, Rs, gs) IN
+    ELSE LET free == Free(e, o)
+             kinds == IF ~free /\ rk # 0 /\ o.h = ref.h THEN rkinds
+                      ELSE IF free /\ fk # 0 /\ o.h = e.outs[fk].h THEN fkinds
+                      ELSE ResultKinds(e, o.h, K, R, Rs, gs, free) IN
          (IF kinds.is = "" THEN None ELSE V("C08.IsRestriction", Name(o) \o kinds.is))
       \o (IF kinds.len = "" THEN None ELSE V("C08.LengthsConserved", Name(o) \o kinds.len))
       \* C08.VariantsAgree: every variant run on the same input gives the same tree as the first usable one
-      \o (IF rk = 0 \/ k = rk \/ (kinds.nest = rkinds.nest /\ o.h.rooted = ref.h.rooted) THEN None
+      \o (IF rk = 0 \/ k = rk \/ (SameMod(free, kinds.nest, rkinds.nest) /\ FlagOk(free, o.h.rooted, ref.h.rooted)) THEN None
           ELSE IF kinds.is = ":suppression_not_declined" /\ rkinds.is = ""
             THEN V("C08.VariantsAgree", Name(o) \o ":suppression_not_declined")
           ELSE V("C08.VariantsAgree", Name(o) \o ":differs_from:" \o Name(ref)))
@@ -128,8 +152,11 @@ Judge(e) ==
                   us == {k \in 1..Len(e.outs) : Usable(e.outs[k])}
                   rk == IF us = {} THEN 0 ELSE Min(us)          \* reference variant: the first usable outcome
                   ref == e.outs[IF rk = 0 THEN 1 ELSE rk]
-                  rkinds == ResultKinds(e, ref.h, K, R, Rs, gs)
-              IN Flatten([k \in 1..Len(e.outs) |-> JOut(e, e.outs[k], k, rk, ref, rkinds, K, R, Rs, gs)])
+                  rkinds == ResultKinds(e, ref.h, K, R, Rs, gs, Free(e, ref))
+                  fs == {k \in us : Free(e, e.outs[k])}
+                  fk == IF fs = {} THEN 0 ELSE Min(fs)           \* first usable outcome compared modulo the basal collapse
+                  fkinds == ResultKinds(e, e.outs[IF fk = 0 THEN 1 ELSE fk].h, K, R, Rs, gs, TRUE)
+              IN Flatten([k \in 1..Len(e.outs) |-> JOut(e, e.outs[k], k, rk, ref, rkinds, fk, fkinds, K, R, Rs, gs)])
 
 Init == l = 1 /\ bad = <<>>
 Next == /\ l <= Len(Tr)
